@@ -28,39 +28,44 @@ Definition apply_action (a : action) (stack : list nat) : option (list nat) :=
   | APop => match stack with _ :: (_ :: _) as rest => Some rest | _ => None end
   end.
 
+(* starting a token at byte c in the state on top of [stack]; [rec] is the lexer on the rest of the
+   input; [pre] are tokens completed just before *)
+Definition start_with (tbl : table) (rec : list nat -> pending -> option (list token)) (c : N)
+           (stack : list nat) (pre : list token) : option (list token) :=
+  match stack with
+  | [] => None
+  | st :: _ =>
+      match first_rule (nth st tbl []) c with
+      | None => None                                             (* invalid input text *)
+      | Some r =>
+          if r_plus r then
+            match rec stack (Some (r, [c])) with Some ts => Some (pre ++ ts) | None => None end
+          else
+            match apply_action (r_act r) stack with
+            | None => None
+            | Some stack' =>
+                match rec stack' None with
+                | Some ts => Some (pre ++ (r_name r, [c]) :: ts)
+                | None => None
+                end
+            end
+      end
+  end.
+
 (* one byte at a time; the state only changes when a token is complete *)
 Fixpoint lex_from (tbl : table) (stack : list nat) (p : pending) (s : str) {struct s} : option (list token) :=
   match s with
   | [] => Some (flush p)
   | c :: s' =>
-      let start (stack : list nat) (pre : list token) : option (list token) :=
-        match stack with
-        | [] => None
-        | st :: _ =>
-            match first_rule (nth st tbl []) c with
-            | None => None                                             (* invalid input text *)
-            | Some r =>
-                if r_plus r then
-                  match lex_from tbl stack (Some (r, [c])) s' with Some ts => Some (pre ++ ts) | None => None end
-                else
-                  match apply_action (r_act r) stack with
-                  | None => None
-                  | Some stack' =>
-                      match lex_from tbl stack' None s' with
-                      | Some ts => Some (pre ++ (r_name r, [c]) :: ts)
-                      | None => None
-                      end
-                  end
-            end
-        end in
+      let rec := fun stack0 p0 => lex_from tbl stack0 p0 s' in
       match p with
       | Some (r, acc) =>
           if in_cls c (r_cls r) then lex_from tbl stack (Some (r, c :: acc)) s'
           else match apply_action (r_act r) stack with
-               | Some stack' => start stack' [(r_name r, rev acc)]
+               | Some stack' => start_with tbl rec c stack' [(r_name r, rev acc)]
                | None => None
                end
-      | None => start stack []
+      | None => start_with tbl rec c stack []
       end
   end.
 
